@@ -2,7 +2,7 @@
    ConfSound/ConfComplete/ConfDiag/ConfReject/ConfValue/ConfRdomain/ConfTie/ConfInst,
    and the concrete witnesses of the three findings. *)
 From Robsd Require Import Conf.ConfDefs Conf.ConfSpec Conf.DocSpec Conf.ConfTie Conf.ConfSound Conf.ConfComplete
-  Conf.ConfDiag Conf.ConfReject Conf.ConfRdomain Conf.ConfValue Conf.ConfInst.
+  Conf.ConfDiag Conf.ConfReject Conf.ConfRdomain Conf.ConfValue Conf.ConfInst Conf.ConfPrim Conf.ConfTrack.
 From RobsdGen Require Import Gen_Conf.
 From Coq Require Import String.
 Local Open Scope string_scope.
@@ -153,6 +153,26 @@ Proof.
   - intros c n u c1 v H. destruct (timeout_in_seconds _ _ _ _ _ _ _ H) as [k [Hk [Hv _]]]. exists k. split; [|exact Hv].
     destruct u; simpl in *; try discriminate; exact Hk.
 Qed.
+
+(* ---- values of an accepted configuration, in terms of its entries *)
+(* a plain keyword (yes|no, number, string, user, directory, list, glob, time-out) that no other production
+   writes interpolates to the value of its first defining entry, else to its default row *)
+Lemma value_of_accepted_plain E T kw es c :
+  plain_free T kw = true -> run_entries E T (cfg_init T) es = Some c ->
+  find_var (c_vars c) kw = kw_value E T kw es
+  /\ (forall v, kw_value E T kw es = Some v -> v <> VInvalid -> lookup1 E T false c kw = (c, Some (render v))).
+Proof.
+  intros Hp Hr. pose proof (plain_value_run_entries E T kw Hp es _ _ Hr) as H. simpl in H. split; [exact H|].
+  intros v Hv Hn. apply lookup_defined; [now rewrite H|exact Hn|now left].
+Qed.
+
+(* that covers every settable plain keyword of every mode except the two spelled regress-... (regress-user,
+   regress-timeout), whose names share the prefix of the per-test variables, and robsddir, which canvas-dir
+   also defines *)
+Lemma plain_keywords_covered m :
+  forallb (fun g => negb (has_fn g && plain (gr_fn g)) || plain_free (tables_of m) (gr_kw g) || prefixb regress_prefix (gr_kw g) || beq (gr_kw g) kw_robsddir)
+          (t_grammar (tables_of m)) = true.
+Proof. destruct m; vm_compute; reflexivity. Qed.
 
 (* documented defaults, computed on the regenerated tables in an empty configuration (robsd mode) *)
 Definition default_of (m : mode) (name : string) : option bytes :=
